@@ -16,7 +16,7 @@ use std::collections::BTreeMap;
 use std::path::{Path, PathBuf};
 use std::process::Command;
 
-const RULE: &str = "configurations enumerated exhaustively: check x format x graph x verbosity {0,1,2} x short x output {default, other directory, path that is a regular file, missing directory} x pre-existing {none, lexer.rs, parser.rs, both} x verdict {accepted, warnings only, syntax error, semantic error, missing input, input is a directory, input not UTF-8} x, with -f, {input as generated, input already formatted} (6912 configurations), each with a grammar drawn from a generated pool of its verdict class (1 per configuration quick, 4 thorough), plus lelwel::build through a helper process with OUT_DIR set. Oracle: snapshot (names, bytes, modification times) of working directory, input directory and output directory before and after the real `llw` process against an effects model from the statement: check mode => no difference at all; generate => generated.rs appears iff no error and the output directory is usable, lexer.rs/parser.rs appear iff no error and neither existed, pre-existing ones byte-identical; format without check => only the input file may change and becomes format(x); parser.gv only with -g outside check mode; exit status 0 <=> no error diagnostic (I/O failure counts as error); never a panic. non-trivial = configuration whose expected effect set is non-empty or that combines check with a writing flag; distinct = configuration";
+const RULE: &str = "configurations enumerated exhaustively: check x format x graph x verbosity {0,1,2} x short x output {default, other directory, path that is a regular file, missing directory} x pre-existing {none, lexer.rs, parser.rs, both} x verdict {accepted, warnings only, syntax error, semantic error, missing input, input is a directory, input not UTF-8} x, with -f, {input as generated, input already formatted} x, in generate mode, {grammar given with a directory, grammar given as a bare file name from its own directory} (8064 configurations), each with a grammar drawn from a generated pool of its verdict class (1 per configuration quick, 4 thorough), plus lelwel::build through a helper process with OUT_DIR set. Oracle: snapshot (names, bytes, modification times) of working directory, input directory and output directory before and after the real `llw` process against an effects model from the statement: check mode => no difference at all; generate => generated.rs appears iff no error and the output directory is usable, lexer.rs/parser.rs appear iff no error and neither existed, pre-existing ones byte-identical; format without check => only the input file may change and becomes format(x); parser.gv only with -g outside check mode; exit status 0 <=> no error diagnostic (I/O failure counts as error); never a panic. non-trivial = configuration whose expected effect set is non-empty or that combines check with a writing flag; distinct = configuration";
 
 #[derive(Clone, Copy, Debug, PartialEq, Eq)]
 pub enum Verdict {
@@ -50,6 +50,8 @@ pub struct Config {
     pub verdict: Verdict,
     /// the input file already holds format(x) (only varied together with -f)
     pub formatted: bool,
+    /// the grammar is given as a bare file name (llw runs in the grammar's directory)
+    pub bare: bool,
 }
 
 type Snap = BTreeMap<String, (Vec<u8>, std::time::SystemTime)>;
@@ -151,7 +153,7 @@ fn run_config(c: &Config, text: &str, dir: &Path) -> Result<bool, Violation> {
     std::thread::sleep(std::time::Duration::from_millis(15));
     let before = snapshot(dir);
     let mut cmd = Command::new(llw());
-    cmd.current_dir(&cwd).env("NO_COLOR", "1");
+    cmd.current_dir(if c.bare { &indir } else { &cwd }).env("NO_COLOR", "1");
     if c.check {
         cmd.arg("-c");
     }
@@ -170,7 +172,11 @@ fn run_config(c: &Config, text: &str, dir: &Path) -> Result<bool, Violation> {
     if c.out != OutKind::Default {
         cmd.arg("-o").arg(&outdir);
     }
-    cmd.arg(&input);
+    if c.bare {
+        cmd.arg("g.llw");
+    } else {
+        cmd.arg(&input);
+    }
     let out = cmd.output().expect("cannot run llw");
     let after = snapshot(dir);
     let stderr = String::from_utf8_lossy(&out.stderr).to_string();
@@ -201,6 +207,7 @@ fn run_config(c: &Config, text: &str, dir: &Path) -> Result<bool, Violation> {
     let readable = matches!(c.verdict, Verdict::Accepted | Verdict::Warnings | Verdict::SyntaxError | Verdict::SemanticError);
     let has_error = matches!(c.verdict, Verdict::SyntaxError | Verdict::SemanticError);
     let out_rel = match c.out {
+        OutKind::Default if c.bare => "in/generated.rs".to_string(),
         OutKind::Default => "cwd/generated.rs".to_string(),
         _ => "out/generated.rs".to_string(),
     };
@@ -234,7 +241,7 @@ fn run_config(c: &Config, text: &str, dir: &Path) -> Result<bool, Violation> {
         exp_exit_ok = !has_error;
         if !has_error {
             if c.graph && !c.check {
-                exp_created.push("cwd/parser.gv".into());
+                exp_created.push(if c.bare { "in/parser.gv".into() } else { "cwd/parser.gv".into() });
             }
             if !c.check {
                 if out_usable {
@@ -296,9 +303,12 @@ pub fn all_configs() -> Vec<Config> {
                         for out in [OutKind::Default, OutKind::OtherDir, OutKind::RegularFile, OutKind::MissingDir] {
                             for (pre_lexer, pre_parser) in [(false, false), (true, false), (false, true), (true, true)] {
                                 for verdict in [Verdict::Accepted, Verdict::Warnings, Verdict::SyntaxError, Verdict::SemanticError, Verdict::Missing, Verdict::IsDir, Verdict::NotUtf8] {
-                                    v.push(Config { check, format, graph, verbose, short, out, pre_lexer, pre_parser, verdict, formatted: false });
+                                    v.push(Config { check, format, graph, verbose, short, out, pre_lexer, pre_parser, verdict, formatted: false, bare: false });
+                                    if !check && !format && matches!(verdict, Verdict::Accepted | Verdict::Warnings | Verdict::SemanticError) {
+                                        v.push(Config { check, format, graph, verbose, short, out, pre_lexer, pre_parser, verdict, formatted: false, bare: true });
+                                    }
                                     if format && matches!(verdict, Verdict::Accepted | Verdict::Warnings | Verdict::SyntaxError | Verdict::SemanticError) {
-                                        v.push(Config { check, format, graph, verbose, short, out, pre_lexer, pre_parser, verdict, formatted: true });
+                                        v.push(Config { check, format, graph, verbose, short, out, pre_lexer, pre_parser, verdict, formatted: true, bare: false });
                                     }
                                 }
                             }
@@ -382,6 +392,24 @@ pub fn run(ctx: &Ctx) -> i32 {
         let ok = out.status.code() == Some(0);
         if ok != should_ok || genf != should_ok || skel != should_ok {
             rep.violation(Violation { sig: "build-effects".into(), what: format!("lelwel::build: exit ok={ok}, generated.rs={genf}, skeletons={skel}, expected all {should_ok}"), replay: json!({"grammar": text}) });
+        }
+        let _ = std::fs::remove_dir_all(&dir);
+    }
+    // the same with the grammar named by a bare file name (build script running in its directory)
+    {
+        let dir = base.join("build-bare");
+        let _ = std::fs::remove_dir_all(&dir);
+        std::fs::create_dir_all(dir.join("src")).unwrap();
+        std::fs::create_dir_all(dir.join("out")).unwrap();
+        std::fs::write(dir.join("src/g.llw"), &pools.accepted[0]).unwrap();
+        let out = Command::new(&exe).current_dir(dir.join("src")).env("OUT_DIR", dir.join("out")).args(["build-helper", "g.llw"]).output().expect("helper");
+        ev.eval();
+        ev.label("build_helper_runs");
+        let mut out_files: Vec<String> = std::fs::read_dir(dir.join("out")).map(|d| d.flatten().map(|e| e.file_name().to_string_lossy().to_string()).collect()).unwrap_or_default();
+        out_files.sort();
+        let skel = dir.join("src/parser.rs").exists() && dir.join("src/lexer.rs").exists();
+        if out.status.code() != Some(0) || out_files != ["generated.rs"] || !skel {
+            rep.violation(Violation { sig: "build-effects-bare".into(), what: format!("lelwel::build(\"g.llw\") from the grammar's directory: exit {:?}, OUT_DIR holds {out_files:?} (expected only generated.rs), skeletons next to the grammar: {skel}", out.status.code()), replay: json!({"grammar": pools.accepted[0]}) });
         }
         let _ = std::fs::remove_dir_all(&dir);
     }
